@@ -21,11 +21,37 @@ theorem commit_keeps_old_pages (ps sth rth fuel : Nat) (t t' : N) (ops : List Op
     (hf : C04Tree.fuelBound t ops ≤ fuel)
     (h : commit ps sth rth fuel t ops order = some t') :
     (keptPgids t').Nodup ∧ ∀ pg ∈ keptPgids t', pg ∈ pgids t := by
-  sorry
+  have hdt : depth t ≤ fuel := by unfold C04Tree.fuelBound at hf; omega
+  unfold commit at h
+  obtain ⟨t1, h1, h⟩ := Option.bind_eq_some_iff.mp h
+  obtain ⟨t2, h2, h3⟩ := Option.bind_eq_some_iff.mp h
+  -- Put/Delete keep the page ids
+  have hp1 : pgids t1 = pgids t := C04Tree.applyOps_pgids fuel t t1 ops h1
+  have hr1 : InTxR t1 := C04Tree.applyOps_inTxR fuel t t1 ops hc hk hdt h1
+  -- rebalance only drops page ids
+  obtain ⟨t2', h2', hr2, _, _⟩ := C04Tree.rebalanceAll_refines rth fuel t1 order hr1
+  rw [h2] at h2'
+  cases h2'
+  have hs2 : (pgids t2).Sublist (pgids t) :=
+    hp1 ▸ PagesL.rebalanceAll_sub rth fuel order t1 t2 (by rw [hp1]; exact hn) h2
+  -- spill keeps the pages, everything else is new
+  have hs3 : (keptPgids t').Sublist (PagesL.Kp (pgids t2)) :=
+    PagesL.spillRoot_pg ps sth fuel t2 t' (C04Tree.inTxR_inTx t2 hr2) h3
+  have hs : (keptPgids t').Sublist (pgids t) :=
+    (hs3.trans (List.filter_sublist (l := pgids t2))).trans hs2
+  exact ⟨List.Nodup.sublist hs hn, fun pg hpg => hs.subset hpg⟩
 
 /-- an untouched subtree keeps its pages: with no operations nothing is rewritten at all -/
 theorem no_ops_keeps_all (ps sth rth fuel : Nat) (t : N) (order : List Nat) (hc : Committed t) :
     (commit ps sth rth fuel t [] order).map pgids = some (pgids t) := by
-  sorry
+  rw [C04Tree.commit_no_ops ps sth rth fuel t order hc]
+  rfl
+
+/-- non-vacuity: in the example transaction of `C04Tree` (one leaf emptied and merged away, one
+    leaf overfilled and split, new root) exactly the untouched leaf (page 5) survives -/
+example : (commit 256 128 64 20 C04Tree.exTree
+      [.del [10], .del [11], .put [4] [7], .put [5] [7], .put [6] [7], .put [7] [7]] [4, 3, 9, 5]).map
+        (fun t' => (pgids t', keptPgids t')) = some ([0, 0, 0, 5], [5]) := by
+  decide
 
 end Bolt.C07Tree
